@@ -45,6 +45,11 @@ Lemma is_derive_cplus (c : R) (f : R -> R) (x l : R) : is_derive f x l -> is_der
 Proof.
   intros D. auto_derive; [exists l; exact D|]. replace (Derive (fun x0 : R => f x0) x) with l; [ring|]. symmetry; apply is_derive_unique; exact D.
 Qed.
+Lemma is_derive_cplus_r (c : R) (f : R -> R) (x l : R) : is_derive f x l -> is_derive (fun t => f t + c) x l.
+Proof.
+  intros D. auto_derive; [exists l; exact D|].
+  replace (Derive (fun x0 : R => f x0) x) with l; [ring|]. symmetry; apply is_derive_unique; exact D.
+Qed.
 Lemma is_derive_cmult (c : R) (f : R -> R) (x l : R) : is_derive f x l -> is_derive (fun t => c * f t) x (c * l).
 Proof.
   intros D. auto_derive; [exists l; exact D|]. replace (Derive (fun x0 : R => f x0) x) with l; [ring|]. symmetry; apply is_derive_unique; exact D.
